@@ -60,7 +60,7 @@ pub fn run(run: &mut Run, mode: Mode) {
     run.extra.push(("exhaustive_histories".into(), J::U(n_exh)));
     run.extra.push(("configurations_in_pool".into(), J::U(pool.len() as u64)));
     run.exhaustive = Some(false);
-    let n_rnd: u64 = if thorough { 300_000 } else { 10_000 };
+    let n_rnd: u64 = if thorough { 300_000 } else { 40_000 };
     run.parallel(|w, nw, acc| {
         for i in my_cases(rc, STREAM_EXH, n_exh, w, nw) {
             let cfg = (i / per_cfg) as usize;
